@@ -17,6 +17,7 @@ pub fn dispatch(op: &str, f: &Fields) -> String {
         "structparse" => structparse(f),
         "rt" => rt(f),
         "hist" => hist(f),
+        "structcmp" => structcmp(f),
         _ => format!("harness-error unknown-op {}", op),
     }
 }
@@ -747,4 +748,129 @@ pub fn hist(f: &Fields) -> String {
         other => return format!("harness-error bad-reader {}", other),
     }
     format!("ok trace={}", if tr.is_empty() { "-".to_string() } else { tr.join(";") })
+}
+
+/// C17: the structural parser and the streaming decoder on the same single frame.
+/// `si=rate,ch,bps,maxbs` (or none for subset parsing)
+pub fn structcmp(f: &Fields) -> String {
+    use flac_codec::metadata::Streaminfo;
+    use flac_codec::stream::{Frame, SubframeWidth};
+    let data = unhex(get(f, "bytes"));
+    let si = get(f, "si");
+    let sinfo: Option<Streaminfo> = if si == "none" || si.is_empty() {
+        None
+    } else {
+        let v = ints::<u64>(si);
+        Some(Streaminfo {
+            minimum_block_size: v[3] as u16,
+            maximum_block_size: v[3] as u16,
+            minimum_frame_size: None,
+            maximum_frame_size: None,
+            sample_rate: v[0] as u32,
+            channels: std::num::NonZero::new(v[1] as u8).unwrap(),
+            bits_per_sample: (v[2] as u32).try_into().unwrap(),
+            total_samples: None,
+            md5: None,
+        })
+    };
+    // --- structural parser
+    let mut cur = Cursor::new(data.clone());
+    let parsed = match &sinfo {
+        None => Frame::read_subset(&mut cur),
+        Some(s) => Frame::read(&mut cur, s),
+    };
+    let used = cur.position() as usize;
+    // --- streaming decoder on exactly the same bytes
+    let dec: Result<(Vec<i32>, u8), String> = match &sinfo {
+        None => {
+            // the stream reader resynchronises; only a frame starting at byte 0 counts
+            let mut r = FlacStreamReader::new(Cursor::new(data.clone()));
+            match r.read() {
+                Ok(fb) => Ok((fb.samples.to_vec(), fb.channels)),
+                Err(e) => Err(errclass(&e)),
+            }
+        }
+        Some(s) => {
+            let mut file: Vec<u8> = Vec::new();
+            let bl = flac_codec::metadata::BlockList::new(s.clone());
+            if let Err(e) = flac_codec::metadata::write_blocks(&mut file, bl.blocks()) {
+                return format!("harness-error write_blocks {}", errclass(&e));
+            }
+            file.extend_from_slice(&data);
+            match FlacSampleReader::new(Cursor::new(file)) {
+                Ok(mut r) => {
+                    let mut buf = vec![0i32; 8 * 65536];
+                    match r.read(&mut buf) {
+                        Ok(n) => Ok((buf[..n].to_vec(), s.channels.get())),
+                        Err(e) => Err(errclass(&e)),
+                    }
+                }
+                Err(e) => Err(errclass(&e)),
+            }
+        }
+    };
+    let dec_s = match &dec {
+        Ok((s, _)) => format!("dec=ok decpcm={}", join(s.iter())),
+        Err(e) => format!("dec=err:{}", e),
+    };
+    match parsed {
+        Err(e) => format!("ok struct=err:{} {}", errclass(&e), dec_s),
+        Ok(frame) => {
+            let mut re: Vec<u8> = Vec::new();
+            let wres = match &sinfo {
+                None => frame.write_subset(&mut re),
+                Some(s) => frame.write(s, &mut re),
+            };
+            let rewritten = match wres {
+                Ok(()) => hex(&re),
+                Err(e) => format!("ERR:{}", errclass(&e)),
+            };
+            let bs = u16::from(frame.header.block_size) as usize;
+            let subs: Vec<Vec<i64>> = frame
+                .subframes
+                .iter()
+                .map(|s| match s {
+                    SubframeWidth::Common(s) => s.decode().map(i64::from).collect(),
+                    SubframeWidth::Wide(s) => s.decode().collect(),
+                })
+                .collect();
+            let lens_ok = subs.iter().all(|s| s.len() == bs);
+            // undo decorrelation on the expansions with the arithmetic width the decoder uses:
+            // i32 when both subframes are common width, i64 (narrowed at the end) with a 33-bit side
+            use flac_codec::stream::ChannelAssignment as CA;
+            let wide = frame.subframes.iter().any(|s| matches!(s, SubframeWidth::Wide(_)));
+            let w = |x: i64| -> i64 { if wide { x } else { x as i32 as i64 } };
+            let chans: Vec<Vec<i64>> = match (frame.header.channel_assignment, subs.as_slice()) {
+                (CA::LeftSide, [l, s]) => vec![l.clone(), l.iter().zip(s).map(|(l, s)| w(l.wrapping_sub(*s))).collect()],
+                (CA::SideRight, [s, r]) => vec![s.iter().zip(r).map(|(s, r)| w(s.wrapping_add(*r))).collect(), r.clone()],
+                (CA::MidSide, [m, s]) => {
+                    let abs = |x: i64| -> i64 { if wide { x.wrapping_abs() } else { (x as i32).wrapping_abs() as i64 } };
+                    let sum: Vec<i64> = m.iter().zip(s).map(|(m, s)| w(w(m.wrapping_mul(2)).wrapping_add(abs(*s) % 2))).collect();
+                    vec![
+                        sum.iter().zip(s).map(|(x, s)| w(x.wrapping_add(*s)) >> 1).collect(),
+                        sum.iter().zip(s).map(|(x, s)| w(x.wrapping_sub(*s)) >> 1).collect(),
+                    ]
+                }
+                (_, all) => all.to_vec(),
+            };
+            let n = chans.iter().map(|c| c.len()).min().unwrap_or(0);
+            let mut inter: Vec<i32> = Vec::new();
+            for i in 0..n {
+                for c in &chans {
+                    inter.push(c[i] as i32);
+                }
+            }
+            format!(
+                "ok struct=ok used={} bs={} nsub={} lens={} lens_ok={} rewritten={} spcm={} {}",
+                used,
+                bs,
+                subs.len(),
+                join(subs.iter().map(|s| s.len())),
+                lens_ok,
+                rewritten,
+                join(inter.iter()),
+                dec_s
+            )
+        }
+    }
 }
